@@ -571,26 +571,15 @@ Section Split.
     f_equal. apply IH.
   Qed.
 
-  (* upate_splitters_after_refinement *)
-  Lemma update_splitters_spec (m : mini) bid i j k :
-    closed_delta n alpha delta -> 1 <= i < k -> j = k ->
-    bid_split bid (fp_block_id (mn_main m)) i j ->
-    sinv bid k (mn_pred m) (mn_split m) ->
-    let m' := update_splitters delta m i j in
-    mn_main m' = mn_main m /\ mn_active_block m' = mn_active_block m /\
-    sinv (fp_block_id (mn_main m)) (S k) (mn_pred m') (mn_split m') /\
-    (forall D, D <> i -> D <> j -> spl (mn_split m') D = spl (mn_split m) D) /\
-    (forall c x, acts (mn_split m) i c -> x < n -> c < alpha -> bid (delta x c) = i ->
-                 acts (mn_split m') (fp_block_id (mn_main m) (delta x c)) c) /\
-    (forall c x y, x < n -> y < n -> c < alpha ->
-                   fp_block_id (mn_main m) (delta x c) = i -> fp_block_id (mn_main m) (delta y c) = j ->
-                   acts (mn_split m') i c \/ acts (mn_split m') j c) /\
-    nact (mn_split m') <= nact (mn_split m) + length (sl_list (spl (mn_split m) i)).
+  Lemma us_init bid bid' i j k pred sp :
+    closed_delta n alpha delta -> 1 <= i < k -> j = k -> bid_split bid bid' i j -> sinv bid k pred sp ->
+    usinv bid bid' i j k (spl sp i) sp (combine (seq 0 (length (sl_list (spl sp i)))) (sl_list (spl sp i)))
+          pred (upd sp i sl_empty) /\
+    (forall idx c cls, In (idx, (c, cls)) (combine (seq 0 (length (sl_list (spl sp i)))) (sl_list (spl sp i))) ->
+                       sl_acts (spl sp i) c -> idx < sl_active (spl sp i)).
   Proof.
-    intros Hcl Hik Hjk Hsp S m'. unfold m'. rewrite update_splitters_unfold. cbv zeta. cbn [mn_main mn_pred mn_split mn_active_block].
-    split; [reflexivity|]. split; [reflexivity|].
-    set (bid' := fp_block_id (mn_main m)) in *. set (sp := mn_split m) in *. set (pred := mn_pred m) in *.
-    fold (spl sp i). set (old := spl sp i). set (L := sl_list old).
+    intros Hcl Hik Hjk Hsp S.
+    set (old := spl sp i). set (L := sl_list old).
     assert (Hij : i <> j) by lia.
     assert (HLent : forall c cls, In (c, cls) L <-> ent sp i c cls) by (intros; reflexivity).
     assert (Hbb : forall y b, y < n -> b <> i -> b <> j -> (bid' y = b <-> bid y = b)).
@@ -640,6 +629,31 @@ Section Split.
       apply (proj1 (NoDup_nth (map fst L) 0) Hnd); rewrite ?map_length; try lia.
       rewrite (nth_indep _ 0 (fst (0,0))), (nth_indep _ 0 (fst (0,0)) (n:=idx')) by (rewrite map_length; lia).
       rewrite !map_nth, H2, Hn'. reflexivity. }
+    split; [exact Hinit|exact Hact].
+  Qed.
+
+  (* upate_splitters_after_refinement *)
+  Lemma update_splitters_spec (m : mini) bid i j k :
+    closed_delta n alpha delta -> 1 <= i < k -> j = k ->
+    bid_split bid (fp_block_id (mn_main m)) i j ->
+    sinv bid k (mn_pred m) (mn_split m) ->
+    let m' := update_splitters delta m i j in
+    mn_main m' = mn_main m /\ mn_active_block m' = mn_active_block m /\
+    sinv (fp_block_id (mn_main m)) (S k) (mn_pred m') (mn_split m') /\
+    (forall D, D <> i -> D <> j -> spl (mn_split m') D = spl (mn_split m) D) /\
+    (forall c x, acts (mn_split m) i c -> x < n -> c < alpha -> bid (delta x c) = i ->
+                 acts (mn_split m') (fp_block_id (mn_main m) (delta x c)) c) /\
+    (forall c x y, x < n -> y < n -> c < alpha ->
+                   fp_block_id (mn_main m) (delta x c) = i -> fp_block_id (mn_main m) (delta y c) = j ->
+                   acts (mn_split m') i c \/ acts (mn_split m') j c) /\
+    nact (mn_split m') <= nact (mn_split m) + length (sl_list (spl (mn_split m) i)).
+  Proof.
+    intros Hcl Hik Hjk Hsp S m'. unfold m'. rewrite update_splitters_unfold. cbv zeta. cbn [mn_main mn_pred mn_split mn_active_block].
+    split; [reflexivity|]. split; [reflexivity|].
+    set (bid' := fp_block_id (mn_main m)) in *. set (sp := mn_split m) in *. set (pred := mn_pred m) in *.
+    fold (spl sp i). set (old := spl sp i). set (L := sl_list old).
+    assert (Hij : i <> j) by lia.
+    destruct (us_init bid bid' i j k pred sp Hcl Hik Hjk Hsp S) as [Hinit Hact]. fold old in Hinit, Hact. fold L in Hinit, Hact.
     pose proof (us_fold_inv bid bid' i j k old sp Hcl Hij Hik Hjk Hsp _ _ _ Hact Hinit) as Hfin.
     set (r := fold_left (us_step bid' i j (sl_active old)) (combine (seq 0 (length L)) L) (pred, upd sp i sl_empty)) in *.
     split; [|split; [|split; [|split]]].
